@@ -105,6 +105,11 @@ def ref_eval(node, env, mp, d=False):
             if node[1] == "-":
                 a, da = -a, -da
             return a, da, ma + abs(a)
+        if k == "call" and len(node) == 3 and node[1] == "abs":
+            if d:
+                raise Skip("derivative of abs")
+            a, da, ma = ref_eval(node[2], env, mp, d)
+            return abs(a), zero, ma + abs(a)
         if k == "call" and len(node) == 3 and node[1] in ("sin", "cos", "tan"):
             a, da, ma = ref_eval(node[2], env, mp, d)
             v = getattr(mp, node[1])(a)
@@ -254,7 +259,7 @@ BIN = ["+", "-", "*", "/", "^"]
 VALS = ["1/2", "1", "3/2", "2", "5/2", "3", "1/4", "3/4", "5/4", "7/4"]
 PLAIN = ["x", "y", "z", "w", "q1", "r2", "alpha", "vel", "h"]
 BUILTIN_LIKE = ["copy", "values", "psi", "get", "items", "keys", "pop", "update", "clear",   # renamed by the generator
-                "print", "list", "max", "id", "len", "sum", "abs"]                             # Python builtins
+                "print", "list", "max", "id", "len", "sum", "min"]                             # Python builtins
 ODD = ["z_", "_y", "k_1", "copy_x", "t0", "Time", "self_", "a_b"]
 RARE = ["copy_", "a__b", "t", "values_"]
 INNER = ["b", "c_", "_d", "v", "copy"]
@@ -354,7 +359,7 @@ def rexpr(rng, depth, env, tame=False):
         return ("b", o, rexpr(rng, depth - 1, env, tame), rexpr(rng, depth - 1, env, tame))
     if x < 0.86:
         return ("u", "-" if rng.random() < 0.8 else "+", rexpr(rng, depth - 1, env, tame))
-    return ("c", rng.choice(["sin", "cos", "tan"]), rexpr(rng, depth - 1, env, tame))
+    return ("c", rng.choice(["sin", "cos", "tan", "abs"]), rexpr(rng, depth - 1, env, tame))
 
 
 def make_case(rng, decls, comp, insts, eqs, states, label):
@@ -384,7 +389,7 @@ def make_case(rng, decls, comp, insts, eqs, states, label):
             "n_ops": sum(nops(l) + nops(r) for l, r in eqs)}
 
 
-def gen_random(rng, depth):
+def gen_random(rng, depth, edit=False):
     pool = PLAIN + rng.sample(BUILTIN_LIKE, 4) + rng.sample(ODD, 2)
     if rng.random() < 0.06:
         pool += rng.sample(RARE, 1)
@@ -425,6 +430,13 @@ def gen_random(rng, depth):
         elif x < 0.18:
             rhs = ("n", rng.choice(SIDE))              # f = 0
         eqs.append((lhs, rhs))
+    if edit:
+        # the same tree is generated, edited in place (one more variable and equation), generated again
+        first = make_case(rng, decls, comp, insts, eqs, states, "edit")
+        c = make_case(rng, decls + [("", "zz9", None)], comp, insts,
+                      eqs + [(("v", "zz9"), rexpr(rng, 2, env))], states, "edit")
+        c["edit_text"], c["text"] = c["text"], first["text"]
+        return c
     return make_case(rng, decls, comp, insts, eqs, states, "random")
 
 
@@ -433,7 +445,8 @@ def gen_systematic(rng):
     operand, unary signs in every position, ^ chains, calls, der, time, dotted and builtin-like names."""
     inner = [lambda a, b, o=o: ("b", o, a, b) for o in BIN] + \
             [lambda a, b: ("u", "-", a), lambda a, b: ("u", "+", a),
-             lambda a, b: ("c", "sin", a), lambda a, b: ("c", "cos", ("b", "+", a, b))]
+             lambda a, b: ("c", "sin", a), lambda a, b: ("c", "cos", ("b", "+", a, b)),
+             lambda a, b: ("c", "abs", ("b", "-", a, b))]
     A, Bv, K, D = ("v", "a.b"), ("v", "y"), ("v", "copy"), ("v", "print")
     exprs = []
     for o in BIN:
@@ -642,6 +655,8 @@ def run(ctx):
     n_rand = ctx.scaled(40, 700)
     for i in range(n_rand):
         cases.append(gen_random(ctx.rng, ctx.rng.randint(2, ctx.scaled(4, 5))))
+    for i in range(ctx.scaled(8, 60)):
+        cases.append(gen_random(ctx.rng, 3, edit=True))
     known_inputs = [(e.get("tag"), (e.get("replay") or {}).get("input")) for e in core.load_known(ctx.pid)]
     known_inputs = [(t, c) for t, c in known_inputs if c]
     allres = core.run_child(ctx, "c24", cases + [c for _, c in known_inputs], timeout=ctx.scaled(600, 3000))
@@ -657,7 +672,7 @@ def run(ctx):
     harness_bad = []
     for c, r in zip(cases, results):
         labels[c.get("label", "?")] = labels.get(c.get("label", "?"), 0) + 1
-        if r.get("parse_failed"):
+        if r.get("parse_failed") or r.get("edit_ok") is False:
             harness_bad.append(c["text"][:300])
             continue
         F, st = judge(c, r)
@@ -702,11 +717,11 @@ def run(ctx):
     ctx.cov["distinct_nontrivial"] = len(shapes)
     ctx.cov["rule"] = ("%d systematic models (every ordered pair outer operator x inner construct, both operand "
                        "positions, unary signs, ^ chains, calls, der, time, dotted and builtin-like names) + %d random "
-                       "models + %d corpus; each emitted list line and equation line compared with the Coq printer, "
+                       "models + %d generate/edit-in-place/generate-again sequences on one tree + %d corpus; each emitted list line and equation line compared with the Coq printer, "
                        "each equation of the executed module evaluated at 2 rational points against lhs - rhs of the "
                        "flat equation (%d evaluations, %d skipped: division by zero / overflow / outside subset); "
                        "non-trivial = distinct emitted equation lines with >= 2 operators"
-                       % (len(sysc), n_rand, n_corpus, evals, skipped))
+                       % (len(sysc), n_rand, ctx.scaled(8, 60), n_corpus, evals, skipped))
     ctx.cov["samples"] = sorted(shapes, key=len)[len(shapes) // 2: len(shapes) // 2 + 3] or ["(none)"]
     ctx.notes["input_distribution"] = {"models": labels, "cases_outside_modelled_subset": outside,
                                        "operators_total": sum(c.get("n_ops", 0) for c in cases)}
